@@ -108,6 +108,11 @@ func main() {
 			}
 			results = append(results, e.VerifyFunc(fn, c))
 		}
+		for _, rt := range ps.RoundTrips {
+			if (*prop == "" || contains(rt.Props, *prop)) && (*funcs == "" || strings.Contains("roundtrip "+rt.Name, *funcs)) {
+				results = append(results, e.verifyRoundTrip(ps, rt))
+			}
+		}
 	}
 	if *prop != "" {
 		results = append(results, e.verifyProtocols(*prop)...)
